@@ -112,7 +112,7 @@ def app_requests(rng):
     out.append(("dns", q, None))
     for form in ("magic_empty", "magic_long", "magic_long_cr", "legacy_empty", "legacy_cr"):
         out.append(("stun_" + form, stun.gen_request(rng, form)[0], None))
-    for proc, vers in ((0, 2), (3, 2), (3, 4), (4, 2), (4, 3), (9, 3), (3, 9)):
+    for proc, vers in ((0, 2), (3, 2), (3, 4), (4, 2), (4, 3), (9, 3), (3, 9), (1, 2), (2, rng.choice([2, 3, 4]))):
         c = rpc.gen_call(rng, prog=rpc.PMAP, vers=vers, proc=proc)
         out.append(("rpc_p%d_v%d" % (proc, vers), c["msg"], rpc.record(c["msg"])))
     c = rpc.gen_call(rng, prog=100003)
